@@ -107,8 +107,8 @@ def okResponse(
     do_compress: bool = False
     if compress and content and len(content) > min_compression_length:
         do_compress = True
-        if not headers:
-            headers = {}
+        # Never modify the caller's dictionary, it may be shared between responses
+        headers = dict(headers) if headers else {}
         headers.update({
             b'Content-Encoding': b'gzip',
         })
